@@ -7,6 +7,7 @@ pub mod builder;
 pub mod envelope;
 pub mod inscriptions;
 pub mod pure_ordinals;
+pub mod runes;
 pub mod runestone;
 pub mod sats;
 pub mod settings;
@@ -22,6 +23,10 @@ pub fn dispatch(id: &str) -> Option<fn(&mut Session) -> Meta> {
     "C05" => inscriptions::c05,
     "C06" => inscriptions::c06,
     "C07" => inscriptions::c07,
+    "C08" => runes::c08,
+    "C09" => runes::c09,
+    "C10" => runes::c10,
+    "C11" => runes::c11,
     "C12" => sats::c12,
     "C17" => sats::c17,
     "C20" => builder::c20,
